@@ -150,7 +150,7 @@ def run_cseg(R, quick):
     import numpy as np
     rng = R.rng
     items = []      # (kind, buf, C, shape, blk, dt, src_values or None)
-    nvalid = 36 if quick else 450
+    nvalid = 36 if quick else 330
     for i in range(nvalid):
         cs = c02.gen_case(rng, True)
         if i % 3 == 0:   # keep most sources small so that targeted edits dominate
@@ -166,7 +166,7 @@ def run_cseg(R, quick):
         for kind, b, C, shape, blk, dt in cseg_mutants(rng, cs, buf, quick):
             items.append((kind, b, C, list(shape), list(blk), dt, a if kind == "valid" else None,
                           len(cs["values"]) > 1))
-    for _ in range(400 if quick else 30000):
+    for _ in range(400 if quick else 20000):
         n = rng.choice([0, 1, 3, 4, 7, 8, 11, 12, 16, 20, 24, rng.randrange(301)])
         style = rng.random()
         if style < 0.4:
